@@ -104,3 +104,31 @@ package animation
 //@ func cloneNRGBA
 //@   trusted
 //@   modifies nothing
+//
+// ---- C09: what compositeFrame does to each pixel of the clamped frame rectangle ----
+//
+// For a canvas position (x, y) inside the clamped rectangle the source pixel
+// is read at (x - OffsetX, y - OffsetY), the canvas pixel at (x, y), and the
+// canvas receives the source pixel (no blend) or blend(source over canvas).
+// The 2-D index arithmetic of the accessors themselves is outside reach; the
+// arguments handed to them are what is proved here, for every iteration.
+//@ func (d *AnimDecoder) compositeFrame
+//@   property C09
+//@   requires d != nil && f != nil && d.currFrame != nil
+//@   modifies *
+//@   loop 0: invariant rect.Min.Y <= y
+//@   loop 1: invariant rect.Min.X <= x && rect.Min.Y <= y && y < rect.Max.Y
+//@   callsite NRGBAAt#0: assert arg1 == x - f.OffsetX && arg2 == y - f.OffsetY
+//@   callsite NRGBAAt#1: assert arg1 == x && arg2 == y
+//@   callsite alphaBlendNRGBA: assert arg0 == srcPx && arg1 == dstPx
+//@   callsite SetNRGBA: assert arg1 == x && arg2 == y
+//@   callsite SetNRGBA#0: assert f.Blend == BlendNone && arg3 == srcPx
+//@   callsite SetNRGBA#1: assert f.Blend != BlendNone && arg3 == alphaBlendNRGBA(srcPx, dstPx)
+//@   callsite SetNRGBA: assert rect.Min.X <= x && x < rect.Max.X && rect.Min.Y <= y && y < rect.Max.Y
+//
+// Assumed: the conversion helper returns a usable NRGBA image (2-D copy loop
+// and interface calls outside reach).
+//@ func toNRGBA
+//@   trusted
+//@   modifies nothing
+//@   ensures result != nil
